@@ -114,6 +114,30 @@ fn op_name(o: &Op) -> &'static str {
     }
 }
 
+/// Harness-side: give an existing source file a hole (at its end, or all of it) before a copy.
+/// "Whatever it held": a sparse source reads as zeros there and the copy must have them too.
+fn maybe_make_sparse(dec: &mut Dec, root: &std::path::Path, model: &mut Tree, rel: &[u8]) {
+    let key = norm(rel);
+    let Some(Node::File(c)) = model.get(&key).cloned() else { return };
+    if !dec.chance(K::Arg, 1, 4) {
+        return;
+    }
+    let hole = *dec.pick(K::Arg, &[1usize, 4096, 70_000, 1 << 20]);
+    let keep = if dec.chance(K::Arg, 1, 3) { 0 } else { c.len() };
+    use std::os::unix::ffi::OsStrExt;
+    let p = root.join(std::ffi::OsStr::from_bytes(&key));
+    let Ok(f) = std::fs::OpenOptions::new().write(true).open(&p) else { return };
+    if f.set_len(keep as u64).is_err() || f.set_len((keep + hole) as u64).is_err() {
+        return;
+    }
+    let mut nc = c[..keep].to_vec();
+    nc.resize(keep + hole, 0);
+    model.insert(key, Node::File(nc));
+    if let Some(s) = sched::sim() {
+        s.count("probe.copy_source_with_hole");
+    }
+}
+
 const NAMES: &[&str] = &["a", "b", "c", "d1", "file.txt", "with space", "ünï", ".hidden", "x"];
 
 fn gen_name(dec: &mut Dec) -> Vec<u8> {
@@ -512,6 +536,7 @@ fn run_history(mut dec0: Dec, record: bool, slot: u64, with_faults: bool, big: b
                     }
                 }
                 Op::Copy { src, dst, pre_read } => {
+                    maybe_make_sparse(dec, &root, &mut model, src);
                     let ps = sh(dec, src);
                     let pd = sh(dec, dst);
                     let mut m = model.clone();
@@ -532,6 +557,7 @@ fn run_history(mut dec0: Dec, record: bool, slot: u64, with_faults: bool, big: b
                     .map_err(|e| format!("{e:?}"))
                 }
                 Op::CopyFile { src, dst } => {
+                    maybe_make_sparse(dec, &root, &mut model, src);
                     let ps = sh(dec, src);
                     let pd = sh(dec, dst);
                     let mut m = model.clone();
@@ -841,7 +867,7 @@ impl Check for C14 {
         16
     }
     fn rule(&self) -> String {
-        "each case = one seeded history of 1..12 operations (write, read, read_to_string, File::copy incl. from an already-read handle, copy_file, create_dir, create_dir_all, remove_file, remove_dir, remove_dir_all, Directory::read iteration, exists, metadata, plus harness-side populate of trees with files/dirs/symlinks to outside and dangling/fifos, fan-out up to 40, thorough up to 3000, depth <=5) in a fresh directory; paths from a small colliding alphabet plus 255-byte, 100..250-byte, non-UTF-8 names, 1..17 components (beyond the 512-byte stack buffer, up to ~4000 bytes), dressed relative/absolute/./, repeated and trailing separators; half of the cases fault-free, half with short read/write/copy_file_range, EINTR, reduced getdents window (288..512) and one hard EIO/ENOSPC. Oracle when an operation returns Ok: the tree observed with std::fs equals the model after that operation, returned data equals the model's, a sentinel tree outside is unchanged, iteration yields each entry exactly once with name and type; Ok after a hard error is a violation. non-trivial = the history changed the tree or iterated a directory of >=8 entries; distinct = hash of (operation, path shape, outcome) sequence".into()
+        "each case = one seeded history of 1..12 operations (write, read, read_to_string, File::copy incl. from an already-read handle and from a source given a hole (sparse) beforehand, copy_file, create_dir, create_dir_all, remove_file, remove_dir, remove_dir_all, Directory::read iteration, exists, metadata, plus harness-side populate of trees with files/dirs/symlinks to outside and dangling/fifos, fan-out up to 40, thorough up to 3000, depth <=5) in a fresh directory; paths from a small colliding alphabet plus 255-byte, 100..250-byte, non-UTF-8 names, 1..17 components (beyond the 512-byte stack buffer, up to ~4000 bytes), dressed relative/absolute/./, repeated and trailing separators; half of the cases fault-free, half with short read/write/copy_file_range, EINTR, reduced getdents window (288..512) and one hard EIO/ENOSPC. Oracle when an operation returns Ok: the tree observed with std::fs equals the model after that operation, returned data equals the model's, a sentinel tree outside is unchanged, iteration yields each entry exactly once with name and type; Ok after a hard error is a violation. non-trivial = the history changed the tree or iterated a directory of >=8 entries; distinct = hash of (operation, path shape, outcome) sequence".into()
     }
     fn assumptions(&self) -> Vec<String> {
         vec![
